@@ -1,7 +1,7 @@
 """C12 - colour and font references resolve to what the user asked for."""
 from ..runner import Ob
 
-HDRC = "from vf.h_color import *\nfrom vf.hlib import holes_reset, tpl\n"
+HDRC = "from vf.h_color import *\nfrom vf.hlib import holes_reset, tpl, pick\n"
 RANK_PRE = ["r0 > 0 and r1 > 0 and r2 > 0", "r0 != r1 and r1 != r2 and r0 != r2"]
 F_COLOR = ["rtflite.services.color_service:ColorService.get_rtf_color_index",
            "rtflite.services.color_service:ColorService.generate_rtf_color_table",
@@ -37,16 +37,16 @@ def build(tier, seed):
         what="for every used colour the index returned for an element is the 1-based position of an entry of the generated table "
              "that holds that colour's definition; '' and black give 0; a table exists iff a non-default colour is used"))
     obs.append(Ob(
-        oid="O1.collect", sig="w0: int, w1: int, w2: int, u0: bool, u1: bool, u2: bool",
+        oid="O1.collect", sig="w0: int, w1: int, w2: int, u0: bool, u1: bool, u2: bool, nested: bool",
         pre=["0 <= w0 <= 4 and 0 <= w1 <= 4 and 0 <= w2 <= 4"], header=HDRC, timeout=T,
         body=r'''
     used = [n for n, u in zip(NAMES, (u0, u1, u2)) if u]
     where = [w for w, u in zip((w0, w1, w2), (u0, u1, u2)) if u]
-    got = svc.collect_document_colors(make_doc(used, where))
+    got = svc.collect_document_colors(make_doc(used, where, nested=nested))
     return sorted(got) == sorted(used)
 ''',
         funcs=["rtflite.services.color_service:ColorService.collect_document_colors"],
-        bounds="3 colours, each placed on one of body / title / page header / footnote / column header (symbolic)",
+        bounds="3 colours, each placed on one of body / title / page header / footnote / column header (symbolic); column headers given flat or nested per section (symbolic)",
         what="the colours collected for the document's table are exactly the colours used on any component"))
     for path, name in ((0, "single"), (1, "multi_section"), (2, "figure")):
         obs.append(Ob(
@@ -75,6 +75,30 @@ def build(tier, seed):
             bounds="%s document path; 3 colours with symbolic ranks, used subset, all placed on body | title | page header | footnote (symbolic)" % name,
             what="on the %s path every index requested while the body, title, footnote, page header/footer or figure is encoded "
                  "refers to THAT document's colour table" % name))
+    # O4: the table follows the document's CURRENT colours when the same document object is encoded again
+    obs.append(Ob(
+        oid="O4.reencode_after_change", sig="r0: int, r1: int, r2: int, alias: bool, w: int, first: int, second: int",
+        pre=RANK_PRE + ["0 <= w <= 3", "0 <= first <= 2 and 0 <= second <= 2"], header=HDRC, timeout=T,
+        body=r"""
+    def body():
+        used1, used2 = [pick(NAMES, first)], [pick(NAMES, second)]
+        doc = make_doc(used1, [w])
+        log1, table1, out1 = run_encode(0, used1, [w], doc=doc)
+        # the user changes the colour on the same document object and encodes it again
+        fresh = make_doc(used2, [w])
+        for comp in ("rtf_body", "rtf_title", "rtf_page_header", "rtf_footnote"):
+            getattr(doc, comp).text_color = getattr(fresh, comp).text_color
+        log2, table2, out2 = run_encode(0, used2, [w], doc=doc)
+        if not log1 or not log2:
+            return False
+        return all(indices_ok(used1, table1, idx) for site, idx in log1) and all(indices_ok(used2, table2, idx) for site, idx in log2)
+    return with_tables([r0, r1, r2], alias, body)
+""",
+        funcs=F_COLOR + ["rtflite.encoding.unified_encoder:UnifiedRTFEncoder.encode"], stubs=STUB_COLOR + ["component encoders -> probes"],
+        bounds="one document object encoded, one colour changed in place (any of 3 colours -> any of 3, on body | title | page header | "
+               "footnote), encoded again",
+        what="the second encoding's colour table and indices are those of the colours the document has THEN (nothing remembered "
+             "from the first encoding)"))
     obs.append(Ob(
         oid="O3.fonts", sig="font: int, size: int", pre=["1 <= font <= 10", "1 <= size <= 200"], header=HDRC + r'''
 import re
